@@ -429,6 +429,210 @@ def check_scaled(case, sp, tb):
     return {"status": "ok", "compared": ncmp, "nterms": len(base)}
 
 
+# ------------------------------------------------------------------------------------------------
+# history across models: the same Op / OpSum objects evaluated in models that group the dofs differently
+_AD = np.array([[0., 0.], [1., 0.]])
+_PAULI = {"I": np.eye(2), "X": np.array([[0., 1.], [1., 0.]]), "Z": np.array([[1., 0.], [0., -1.]]),
+          "sigma_+": np.array([[0., 1.], [0., 0.]]), "sigma_-": np.array([[0., 0.], [1., 0.]])}
+_NB = 3
+_B = np.diag(np.sqrt(np.arange(1, _NB)), k=1)
+_SHO = {"I": np.eye(_NB), "b": _B, r"b^\dagger": _B.T, r"b^\dagger + b": _B + _B.T, "x": (_B + _B.T) / np.sqrt(2.0),
+        "n": np.diag(np.arange(_NB)).astype(float)}
+# site layouts: ("E1", dof) one electronic dof per site, ("EV", [dofs]) vacuum + one state per dof,
+# ("EM", [dofs]) one state per dof (no vacuum), ("V",) the oscillator, ("S",) the spin
+LAYOUTS = {
+    "A": [("E1", "e0"), ("E1", "e1"), ("V",), ("S",)],
+    "B": [("EV", ["e0", "e1"]), ("V",), ("S",)],
+    "C": [("S",), ("V",), ("E1", "e1"), ("E1", "e0")],
+    "D": [("V",), ("S",), ("EV", ["e1", "e0"])],
+    "E": [("EM", ["e0", "e1"]), ("V",), ("S",)],
+}
+
+
+def _basis_of(layout):
+    out = []
+    for st in layout:
+        if st[0] == "E1":
+            out.append(ba.BasisSimpleElectron(st[1]))
+        elif st[0] == "EV":
+            out.append(ba.BasisMultiElectronVac(list(st[1])))
+        elif st[0] == "EM":
+            out.append(ba.BasisMultiElectron(list(st[1]), [1] * len(st[1])))
+        elif st[0] == "V":
+            out.append(ba.BasisSHO("v", omega=1.0, nbas=_NB))
+        else:
+            out.append(ba.BasisHalfSpin("s0"))
+    return out
+
+
+def _unit(n, i, j):
+    m = np.zeros((n, n))
+    m[i, j] = 1.0
+    return m
+
+
+def _ref_term(layout, spec):
+    """first-principles matrix of one term (without its factor) in a layout"""
+    el = spec.get("elec")
+    mats = []
+    for st in layout:
+        if st[0] == "E1":
+            m = np.eye(2)
+            if el:
+                if el[0] in ("c", "ca") and "e%d" % el[1] == st[1]:
+                    m = m @ _AD
+                if (el[0] == "a" and "e%d" % el[1] == st[1]) or (el[0] == "ca" and "e%d" % el[2] == st[1]):
+                    m = m @ _AD.T
+            mats.append(m)
+        elif st[0] in ("EV", "EM"):
+            off = 1 if st[0] == "EV" else 0
+            n = len(st[1]) + off
+            idx = lambda k: st[1].index("e%d" % k) + off
+            if not el:
+                m = np.eye(n)
+            elif el[0] == "ca":
+                m = _unit(n, idx(el[1]), idx(el[2]))
+            elif el[0] == "c":
+                m = _unit(n, idx(el[1]), 0)
+            else:
+                m = _unit(n, 0, idx(el[1]))
+            mats.append(m)
+        elif st[0] == "V":
+            m = np.eye(_NB)
+            for s_ in spec.get("sho", []):
+                m = m @ _SHO[s_]
+            mats.append(m)
+        else:
+            m = np.eye(2)
+            for s_ in spec.get("spin", []):
+                m = m @ _PAULI[s_]
+            mats.append(m)
+    full = np.eye(1)
+    for m in mats:
+        full = np.kron(full, m)
+    return full
+
+
+def _build_term(spec):
+    import random
+    rr = random.Random(spec["perm"])
+    el = spec.get("elec")
+    seqs = []
+    if el:
+        e = []
+        if el[0] in ("c", "ca"):
+            e.append((r"a^\dagger", "e%d" % el[1]))
+        if el[0] == "a":
+            e.append(("a", "e%d" % el[1]))
+        if el[0] == "ca":
+            e.append(("a", "e%d" % el[2]))
+        seqs.append(e)
+    if spec.get("sho"):
+        seqs.append([(s_, "v") for s_ in spec["sho"]])
+    if spec.get("spin"):
+        seqs.append([(s_, "s0") for s_ in spec["spin"]])
+    letters = []
+    seqs = [list(q) for q in seqs if q]
+    while seqs:                                    # random interleaving that keeps every sequence in order
+        q = rr.choice(seqs)
+        letters.append(q.pop(0))
+        seqs = [x for x in seqs if x]
+    if not letters:
+        letters = [("I", "s0")]
+    # leaves of one or two letters, multiplied with the public algebra
+    leaves, i = [], 0
+    while i < len(letters):
+        if i + 1 < len(letters) and rr.random() < 0.3:
+            (s1, d1), (s2, d2) = letters[i], letters[i + 1]
+            leaves.append(Op(s1 + " " + s2, [d1, d2]))
+            i += 2
+        else:
+            leaves.append(Op(letters[i][0], letters[i][1]))
+            i += 1
+    f = L.scalar(spec["f"])
+    how = rr.choice(["chain", "product", "sprod"])
+    if how == "chain" or len(leaves) == 1:
+        t = leaves[0]
+        for x in leaves[1:]:
+            t = t * x
+    elif how == "product":
+        t = Op.product(leaves)
+    else:
+        t = OpSum.product(leaves)
+    t = (t * f) if rr.random() < 0.5 else (f * t)
+    return t, letters
+
+
+def check_history(case):
+    """case = {"terms": [spec], "repeat": [indices], "models": [layout names in the order of use]}.
+    The term objects are built ONCE and then used in every model of the sequence: split_elementary must be the
+    stable regrouping of the term's letters by THAT model's sites (sites increasing, factor 1, returned factor the
+    term's), Model(...).ham_terms must keep the objects (also repeated ones), and
+    Mpo(model, terms, Hopcroft-Karp).todense() must equal the first-principles matrix of that layout."""
+    bad = []
+    try:
+        built = [_build_term(sp_) for sp_ in case["terms"]]
+    except Exception as e:  # noqa: BLE001
+        return {"status": "rejected", "exc": type(e).__name__, "msg": str(e)[:120]}
+    objs = [b[0] for b in built]
+    ham0 = objs[0] + objs[1] if len(objs) > 1 else OpSum([objs[0]])
+    for o in objs[2:]:
+        ham0 = ham0 + o
+    terms = ham0 + [objs[i] for i in case.get("repeat", [])]          # the same objects once more
+    order = list(range(len(objs))) + list(case.get("repeat", []))
+    ncmp = 0
+    for name in case["models"]:
+        layout = LAYOUTS[name]
+        basis = _basis_of(layout)
+        try:
+            model = Model(basis, list(terms))
+        except Exception as e:  # noqa: BLE001
+            bad.append({"what": "Model construction raised", "model": name, "exc": type(e).__name__, "msg": str(e)[:120]})
+            continue
+        want = [t for t in terms if t.factor != 0]
+        if len(model.ham_terms) != len(want) or any(a is not b for a, b in zip(model.ham_terms, want)):
+            bad.append({"what": "Model.ham_terms loses or alters (repeated) term objects", "model": name,
+                        "kept": len(model.ham_terms), "expected": len(want)})
+        d2s = model.dof_to_siteidx
+        for t in objs:
+            try:
+                ops, f = t.split_elementary(d2s)
+            except Exception as e:  # noqa: BLE001
+                bad.append({"what": "split_elementary raised", "model": name, "exc": type(e).__name__, "msg": str(e)[:120]})
+                continue
+            letters = list(zip(t.split_symbol, t.dofs))
+            sites = sorted(set(d2s[d] for _, d in letters))
+            expect = [[(s_, d) for s_, d in letters if d2s[d] == st] for st in sites]
+            got = [list(zip(o.split_symbol, o.dofs)) for o in ops]
+            if got != expect or any(o.factor != 1 for o in ops) or f != t.factor:
+                bad.append({"what": "split_elementary is not the regrouping of the letters by this model's sites", "model": name,
+                            "op": repr(t), "got": repr(ops)[:200], "expected": repr(expect)[:200], "history": case["models"]})
+                break
+        dim = int(np.prod([b.nbas for b in basis]))
+        ref = np.zeros((dim, dim), dtype=complex)
+        scale = 0.0
+        for i in order:
+            m = _ref_term(layout, case["terms"][i])
+            ref = ref + complex(objs[i].factor) * m
+            scale += abs(complex(objs[i].factor)) * np.sqrt(dim) * max(1.0, float(np.linalg.norm(m, 2)))
+        if np.linalg.norm(ref) <= 1e-9 * scale or all(t.factor == 0 for t in terms):
+            continue                                   # Mpo() refuses the zero operator (see notes, exclusion A)
+        try:
+            d = Mpo(model, list(terms), algo="Hopcroft-Karp").todense()
+        except Exception as e:  # noqa: BLE001
+            bad.append({"what": "Mpo(model, terms, Hopcroft-Karp) raised", "model": name, "exc": type(e).__name__, "msg": str(e)[:160],
+                        "history": case["models"]})
+            continue
+        ncmp += 1
+        if d.shape != ref.shape or np.linalg.norm(d - ref) > TOL * scale:
+            bad.append({"what": "Mpo(model, terms).todense() != first-principles matrix of this layout", "model": name,
+                        "history": case["models"], "diff": float(np.linalg.norm(d - ref)) if d.shape == ref.shape else None,
+                        "norm": float(np.linalg.norm(ref))})
+    if bad:
+        return {"status": "bad", "bad": bad, "terms": repr(list(terms))[:400]}
+    return {"status": "ok", "compared": ncmp}
+
+
 def replay(case):
     """repro entry point: 1 while the property fails on this input (wrong matrix, or raising on an
     expression that must be accepted), 0 otherwise"""
@@ -437,6 +641,8 @@ def replay(case):
         r = check_split(case["split"], tb)
     elif "scaled" in case:
         r = check_scaled(case["scaled"], Space(tb), tb)
+    elif "history" in case:
+        r = check_history(case["history"])
     else:
         sp = Space(tb) if case.get("space", "model") == "model" else RandomSpace(tb)
         r = check_program(strip(case["prog"]), sp, tb)
@@ -457,7 +663,8 @@ def main():
         out.append(check_program(prog, sp, tb))
     spl = [check_split(c, tb) for c in pl.get("splits", [])]
     scl = [check_scaled(c, sp, tb) for c in pl.get("scaled", [])]
-    print("RESULT " + json.dumps({"results": out, "splits": spl, "scaled": scl}, default=str))
+    hist = [check_history(c) for c in pl.get("history", [])]
+    print("RESULT " + json.dumps({"results": out, "splits": spl, "scaled": scl, "history": hist}, default=str))
 
 
 if __name__ == "__main__":
